@@ -101,6 +101,7 @@ func runSchedules(t *testing.T, g *sGraph, paths [][]*sEdge, w *ndWriter, rep *s
 				trace := traceBase + k
 				w.write(J{"ev": "Reset", "trace": trace, "cfg": cfgOut, "obs": s.observe()})
 				diverged := false
+				softDiverged := false
 				i := 0
 				logStep := func(st any, exp string, conf bool) {
 					i++
@@ -129,6 +130,19 @@ func runSchedules(t *testing.T, g *sGraph, paths [][]*sEdge, w *ndWriter, rep *s
 						}
 					}
 					logStep(e.Step, e.Obs, conf)
+					if !conf && sameStatuses(got, e.Obs) {
+						// every process is where the model expects it (same gates, same calls returned): only counters
+						// differ. Keep following the schedule - what the changed code does next is what the contract
+						// has to see - but count the scenario as diverged.
+						if !softDiverged {
+							softDiverged = true
+							rep.Diverged++
+							if len(rep.FirstDiverge) < 10 {
+								rep.FirstDiverge = append(rep.FirstDiverge, J{"scenario": trace, "step": e.Step, "expected": json.RawMessage(e.Obs), "got": json.RawMessage(got), "continued": true})
+							}
+						}
+						continue
+					}
 					if !conf {
 						diverged = true
 						rep.Diverged++
@@ -140,23 +154,16 @@ func runSchedules(t *testing.T, g *sGraph, paths [][]*sEdge, w *ndWriter, rep *s
 					rep.Conform++
 				}
 				if diverged {
-					// the model could not be followed: drain under a fixed policy so that the contract
-					// still sees a complete execution (pass every parked goroutine, then let time pass)
-					for n := 0; n < 64; n++ {
-						pm := s.c.parkedMap()
-						if len(pm) == 0 {
-							break
-						}
-						keys := sortedKeys(pm)
-						st := schedStep{A: "pass", P: keys[0], Gate: pm[keys[0]]}
-						if pm[keys[0]] == "block.childStart" {
-							st = schedStep{A: "passchild", P: s.c.payloadProc(keys[0])}
-						}
-						if err := s.apply(st); err != nil {
-							break
-						}
-						logStep(st, "", false)
-					}
+					// the model could not be followed: let everything run free (gates off, every parked goroutine
+					// released at once - stepping them one by one could park one that holds a mutex another needs)
+					// so that the contract still sees a complete execution, then let time pass
+					s.c.disableAll()
+					s.mu.Lock()
+					s.evs = nil
+					s.mu.Unlock()
+					s.c.passAll()
+					synctest.Wait()
+					logStep(schedStep{A: "drain"}, "", false)
 					for s.now() < horizon {
 						if err := s.apply(schedStep{A: "tick"}); err != nil {
 							break
@@ -169,6 +176,31 @@ func runSchedules(t *testing.T, g *sGraph, paths [][]*sEdge, w *ndWriter, rep *s
 		}()
 		rep.Scenarios++
 	}
+}
+
+// sameStatuses: two projections agree on where every process is (the "procs" and "kids" maps).
+func sameStatuses(a, b string) bool {
+	var x, y struct {
+		Procs map[string]string `json:"procs"`
+		Kids  map[string]bool   `json:"kids"`
+	}
+	if json.Unmarshal([]byte(a), &x) != nil || json.Unmarshal([]byte(b), &y) != nil {
+		return false
+	}
+	if len(x.Procs) != len(y.Procs) {
+		return false
+	}
+	for k, v := range x.Procs {
+		if y.Procs[k] != v {
+			return false
+		}
+	}
+	for k, v := range x.Kids {
+		if y.Kids[k] != v {
+			return false
+		}
+	}
+	return true
 }
 
 // TestBlockingReplay drives the real Blocking / Deadline limiters through every transition of the
